@@ -153,4 +153,214 @@ def codeStrOn (switches : Int → Bool) (current : Int) : Int → Bool := fun _ 
 /-- the property's per-user-number semantics -/
 def specStrOn (switches : Int → Bool) : Int → Bool := switches
 
+
+/-! ## Histories: what survives from one `Run*` call to the next
+
+`RunString/RunFile/RunAccumulated` = `open_output_files` (the output / error / log files whose switch is on are
+re-created, i.e. truncated) · `check_database` (error and warning text, selected-output tables, strings and line
+vectors, log and output strings and lines are cleared) · `do_run` (events) · line splitting · `close_output_files`
+(every punch stream is closed and detached). The files on disk, the switches and the SELECTED_OUTPUT definitions
+survive; a punch file is written only while a stream is attached to its user number, and a stream is attached by
+`punch_open` only when the file switch of that number is on. -/
+
+/-- selected-output sinks of a history: `att n` = a punch stream is attached to user number `n` -/
+structure HSinks where
+  str : Int → List Char
+  file : Int → List Char
+  tab : Int → Table
+  att : Int → Bool
+
+def HSinks.step (cfg : PCfg) (s : HSinks) : PEv → HSinks
+  | .msg n on t =>
+    { s with str := upd s.str n (fun x => if cfg.strOn n && on then x ++ t else x),
+             file := upd s.file n (fun x => if s.att n && on then x ++ t else x) }
+  | .val n on name v r =>
+    { s with str := upd s.str n (fun x => if cfg.strOn n && on then x ++ r else x),
+             file := upd s.file n (fun x => if s.att n && on then x ++ r else x),
+             tab := upd s.tab n (fun t => t.pushBack name v) }
+  | .endRow n pending =>
+    { s with tab := upd s.tab n (fun t => (pushPending t pending).endRow) }
+  | .reopen n =>
+    if cfg.fileOn n then
+      { s with file := upd s.file n (fun _ => []), att := upd s.att n (fun _ => true) }
+    else s
+
+/-- files on disk (selected-output files per user number) -/
+structure Disk where
+  out : List Char := []
+  log : List Char := []
+  err : List Char := []
+  sel : Int → List Char := fun _ => []
+
+/-- what the accessors show after a call -/
+structure Views where
+  outStr : List Char := []
+  outLines : List (List Char) := []
+  logStr : List Char := []
+  logLines : List (List Char) := []
+  errStr : List Char := []
+  errLines : List (List Char) := []
+  warnStr : List Char := []
+  warnLines : List (List Char) := []
+  selStr : Int → List Char := fun _ => []
+  selLines : Int → List (List Char) := fun _ => []
+  tab : Int → Table := fun _ => Table.init
+
+structure CallCfg where
+  out : MsgCfg
+  log : MsgCfg
+  err : ErrCfg
+  /-- `strOn`: the switch consulted at run time (`codeStrOn` of the raw map and the current number);
+  `fileOn`: the raw per-number file switch -/
+  sel : PCfg
+
+structure CallEvs where
+  outs : List Msg := []
+  logs : List Msg := []
+  errs : List ErrEv := []
+  pevs : List PEv := []
+
+structure Inst where
+  disk : Disk := {}
+  views : Views := {}
+
+/-- `open_output_files`: a file whose switch is on is re-created -/
+def openTrunc (on : Bool) (old : List Char) : List Char := if on then [] else old
+
+def punchCall (cfg : PCfg) (old : Int → List Char) (evs : List PEv) : HSinks :=
+  evs.foldl (HSinks.step cfg) ⟨fun _ => [], old, fun _ => Table.init, fun _ => false⟩
+
+def Inst.call (i : Inst) (c : CallCfg) (e : CallEvs) : Inst :=
+  let o := routeMsgs c.out e.outs
+  let l := routeMsgs c.log e.logs
+  let errStr := (errStrChunks c.err e.errs).flatten
+  let warnStr := (warnStrChunks c.err e.errs).flatten
+  let r := punchCall c.sel i.disk.sel e.pevs
+  { disk := { out := openTrunc c.out.fileOn i.disk.out ++ o.file,
+              log := openTrunc c.log.fileOn i.disk.log ++ l.file,
+              err := openTrunc c.err.fileOn i.disk.err ++ (errFileChunks c.err e.errs).flatten,
+              sel := r.file },
+    views := { outStr := o.str, outLines := if c.out.strOn then splitLines o.str else [],
+               logStr := l.str, logLines := if c.log.strOn then splitLines l.str else [],
+               errStr := errStr, errLines := splitLines errStr,
+               warnStr := warnStr, warnLines := splitLines warnStr,
+               selStr := r.str,
+               selLines := fun n => if c.sel.strOn n then splitLines (r.str n) else [],
+               tab := r.tab } }
+
+def Inst.run (i : Inst) (h : List (CallCfg × CallEvs)) : Inst := h.foldl (fun i ce => i.call ce.1 ce.2) i
+
+/-! ## Which punch files `do_run` (re)opens and which heading lines `tidy_punch` writes
+
+`SoSt` is the part of the engine state that decides it: the keys of `SelectedOutput_map` (map order), the
+`new_def` flag and whether a punch stream is attached. `Sk` is the skeleton of the punch events of a
+simulation's prologue: `opened n` = a `punch_open(…, n)` call, `head n` = one heading line for `n`. -/
+
+structure SoSt where
+  defs : List Int := []
+  newDef : Int → Bool := fun _ => false
+  att : Int → Bool := fun _ => false
+
+inductive Sk where
+  | opened (n : Int)
+  | head (n : Int)
+deriving DecidableEq, Repr
+
+/-- `tidy_punch`: one heading line for every block whose `new_def` is set; clears the flags -/
+def tidyPunch (s : SoSt) : SoSt × List Sk :=
+  ({ s with newDef := fun _ => false }, (s.defs.filter s.newDef).map Sk.head)
+
+def insertKey (n : Int) : List Int → List Int
+  | [] => [n]
+  | d :: ds => if n < d then n :: d :: ds else if n = d then d :: ds else d :: insertKey n ds
+
+/-- `read_selected_output` for user number `n`; `touch` = an option that sets `new_def` was read.
+A stored block is (re)created with `new_def` set and `punch_open` is called for it
+(the stream is attached only when the file switch is on). -/
+def readBlock (fileSw : Int → Bool) (s : SoSt) (b : Int × Bool) : SoSt × List Sk :=
+  if b.2 || !(s.defs.contains b.1) then
+    ({ defs := insertKey b.1 s.defs, newDef := upd s.newDef b.1 (fun _ => true),
+       att := upd s.att b.1 (fun _ => fileSw b.1) }, [Sk.opened b.1])
+  else (s, [])
+
+/-- the loop of `do_run` as written: `tidy_punch` is called inside the loop, once per opened file -/
+def openLoopIn (fileSw : Int → Bool) : List Int → SoSt → List Sk → SoSt × List Sk
+  | [], s, acc => (s, acc)
+  | d :: ds, s, acc =>
+    if fileSw d && !s.att d then
+      let s1 := { s with att := upd s.att d (fun _ => true), newDef := upd s.newDef d (fun _ => true) }
+      let p := tidyPunch s1
+      openLoopIn fileSw ds p.1 (acc ++ Sk.opened d :: p.2)
+    else openLoopIn fileSw ds s acc
+
+/-- the loop with `tidy_punch` hoisted behind it (proposed repair) -/
+def openLoopHoist (fileSw : Int → Bool) (s : SoSt) : SoSt × List Sk :=
+  let todo := s.defs.filter (fun d => fileSw d && !s.att d)
+  if todo = [] then (s, [])
+  else
+    let s1 := { s with att := fun n => s.att n || todo.contains n, newDef := fun n => s.newDef n || todo.contains n }
+    let p := tidyPunch s1
+    (p.1, todo.map Sk.opened ++ p.2)
+
+def openLoop (hoisted : Bool) (fileSw : Int → Bool) (s : SoSt) : SoSt × List Sk :=
+  if hoisted then openLoopHoist fileSw s else openLoopIn fileSw s.defs s []
+
+def readBlocks (fileSw : Int → Bool) : List (Int × Bool) → SoSt → List Sk → SoSt × List Sk
+  | [], s, acc => (s, acc)
+  | b :: bs, s, acc => let p := readBlock fileSw s b; readBlocks fileSw bs p.1 (acc ++ p.2)
+
+/-- prologue of one simulation: blocks read, (first simulation: every `new_def` set), the open loop when
+`pr.punch` is on and a block exists, `tidy_model`'s `tidy_punch` when `tidy` -/
+def simPrologue (hoisted : Bool) (fileSw : Int → Bool) (first prPunch tidy : Bool)
+    (blocks : List (Int × Bool)) (s : SoSt) : SoSt × List Sk :=
+  let p1 := readBlocks fileSw blocks s []
+  let s2 := if first then { p1.1 with newDef := fun _ => true } else p1.1
+  let p3 := if prPunch && !s2.defs.isEmpty then openLoop hoisted fileSw s2 else (s2, [])
+  let p4 := if tidy then tidyPunch p3.1 else (p3.1, [])
+  (p4.1, p1.2 ++ p3.2 ++ p4.2)
+
+/-- `close_output_files` -/
+def SoSt.closeAll (s : SoSt) : SoSt := { s with att := fun _ => false }
+
+def countHead (n : Int) (sk : List Sk) : Nat := sk.count (Sk.head n)
+
+/-! ## print format of a punched value (`punch_identifiers … punch_user_punch`, `PBasic::cmdpunch`) -/
+
+inductive ColKind where
+  | intId      -- sim, soln, step, reaction = -99
+  | strId      -- state
+  | gId        -- dist_x, time
+  | gE         -- pH, pe, Alk, mu, mass_H2O, charge, pct_err
+  | e4         -- totals, molalities, activities, phases, gases, kinetics, solid solutions, reaction, USER_PUNCH numbers
+  | f3         -- temp
+  | f4         -- saturation indices
+  | userStr (len : Nat) (tab : Bool)   -- USER_PUNCH string of `len` bytes
+deriving DecidableEq, Repr
+
+def fieldWidth (hp : Bool) : Nat := if hp then 20 else 12
+
+def fmtOf (hp : Bool) : ColKind → String
+  | .intId => if hp then "%20d\t" else "%12d\t"
+  | .strId => if hp then "%20s\t" else "%12s\t"
+  | .gId => if hp then "%20g\t" else "%12g\t"
+  | .gE => if hp then "%20.12e\t" else "%12g\t"
+  | .e4 => if hp then "%20.12e\t" else "%12.4e\t"
+  | .f3 => if hp then "%20.12e\t" else "%12.3f\t"
+  | .f4 => if hp then "%20.12e\t" else "%12.4f\t"
+  | .userStr len tab =>
+    (if len ≤ fieldWidth hp then (if hp then "%20.20s" else "%12.12s") else "%s") ++ (if tab then "\t" else "")
+
+/-- column class of a built-in column from its table heading and the type of the value -/
+def classify (name : String) (isInt isStr : Bool) : Option ColKind :=
+  if isStr then (if name = "state" then some .strId else none)
+  else if isInt then
+    (if name = "sim" ∨ name = "soln" ∨ name = "step" ∨ name = "reaction" then some .intId else none)
+  else if name = "dist_x" ∨ name = "time" then some .gId
+  else if name = "pH" ∨ name = "pe" ∨ name = "Alk(eq/kgw)" ∨ name = "mu" ∨ name = "mass_H2O" ∨
+          name = "charge(eq)" ∨ name = "pct_err" then some .gE
+  else if name = "temp(C)" then some .f3
+  else if name.startsWith "si_" then some .f4
+  else some .e4
+
+
 end PhreeqcVerif.Route
